@@ -47,6 +47,11 @@ LL = 'lattice_lib'
 
 
 def run(prog, res):
+  from ..rules import seqkind
+  seqkind.selfcheck()
+  for q in ('lattice_lib.finalize_constraints', 'lattice_lib.project_by_dykstra'):
+    seqkind.check_function(prog, res, prog.function(q))
+  res.floor('T3', 5)
   _wiring(prog, res)
   _order(prog, res)
   affine_rules.check_local_repairs(prog, res)
